@@ -28,8 +28,7 @@ KW_NAME = {
     'callback': 'solver_callback',
 }
 
-PALETTE_SOLVERS = ('cg1', 'cg40', 'cg41', 'cg500')
-_MAX_STEPS = {'cg1': 1, 'cg40': 40, 'cg41': 41, 'cg500': 500}
+PALETTE_SOLVERS = ('cg1', 'cg40', 'cg41', 'cg500', 'gm30', 'bi30')
 OPTION_KINDS = ('E', 'P', 'Y', 'PY')
 OPERATORS = ('A', 'B', 'AB', 'A2')
 
@@ -44,41 +43,50 @@ def _lx():  # lazy: keep import order under the control of sim.env
 
 
 # ----------------------------------------------------------------------------- solvers
-def solver_for(tag: str):
+_FAMILIES = {'cg': ('CG', 0), 'gm': ('GMRES', 0), 'bi': ('BiCGStab', 0), 'u': ('CG', 1000), 'g': ('GMRES', 2000), 'b': ('BiCGStab', 3000)}
+
+
+def _parse_solver_tag(tag: str) -> tuple[str, int]:
+    """tag -> (lineax solver class name, max_steps).  cg<N>/gm<N>/bi<N>: palette values;
+    u<uid>/g<uid>/b<uid>: a unique value per block (max_steps encodes the uid)."""
+    for prefix in ('cg', 'gm', 'bi', 'u', 'g', 'b'):
+        if tag.startswith(prefix) and tag[len(prefix) :].isdigit():
+            cls, base = _FAMILIES[prefix]
+            return cls, base + int(tag[len(prefix) :])
+    raise ValueError(tag)
+
+
+def solver_for(tag: str, fresh: bool = False):
+    """The solver object for a tag; `fresh` builds a new, equal but not identical, instance."""
     lx = _lx()
     key = 'solver:' + tag
-    if key not in _cache:
-        if tag in _MAX_STEPS:
-            max_steps = _MAX_STEPS[tag]
-        elif tag.startswith('u'):
-            max_steps = 1000 + int(tag[1:])
-        else:
-            raise ValueError(tag)
-        _cache[key] = lx.CG(rtol=1e-6, atol=1e-6, max_steps=max_steps)
+    if fresh or key not in _cache:
+        cls, max_steps = _parse_solver_tag(tag)
+        obj = getattr(lx, cls)(rtol=1e-6, atol=1e-6, max_steps=max_steps)
+        if fresh:
+            return obj
+        _cache[key] = obj
     return _cache[key]
 
 
 def solver_tag(obj: Any) -> str:
     lx = _lx()
-    if type(obj) is lx.CG:
-        try:
-            rtol, atol, max_steps = float(obj.rtol), float(obj.atol), obj.max_steps
-        except Exception:  # pragma: no cover - defensive
-            return '?solver'
-        if rtol == 1e-6 and atol == 1e-6 and isinstance(max_steps, int):
-            for tag, ms in _MAX_STEPS.items():
-                if ms == max_steps:
-                    return tag
-            if max_steps >= 1000:
-                return f'u{max_steps - 1000}'
-        return f'?CG({rtol},{atol},{max_steps})'
-    return '?' + type(obj).__name__
+    for prefix, cls, lo, hi in (('cg', 'CG', 0, 1000), ('u', 'CG', 1000, 2000), ('gm', 'GMRES', 0, 1000), ('g', 'GMRES', 2000, 3000), ('bi', 'BiCGStab', 0, 1000), ('b', 'BiCGStab', 3000, 4000)):
+        if type(obj) is getattr(lx, cls):
+            try:
+                rtol, atol, max_steps = float(obj.rtol), float(obj.atol), obj.max_steps
+            except Exception:  # pragma: no cover - defensive
+                return '?solver'
+            if rtol == 1e-6 and atol == 1e-6 and isinstance(max_steps, int) and lo <= max_steps < hi:
+                return f'{prefix}{max_steps - (lo if prefix in ("u", "g", "b") else 0)}'
+    try:
+        return f'?{type(obj).__name__}({obj.rtol},{obj.atol},{obj.max_steps})'
+    except Exception:
+        return '?' + type(obj).__name__
 
 
 def solver_max_steps(tag: str) -> int:
-    if tag in _MAX_STEPS:
-        return _MAX_STEPS[tag]
-    return 1000 + int(tag[1:])
+    return _parse_solver_tag(tag)[1]
 
 
 # ----------------------------------------------------------------------------- operators
@@ -250,6 +258,8 @@ def observe(state: Any) -> dict[str, Any]:
             cb_tag = 'default'
         else:
             cb_tag = getattr(cb, 'tag', None)
+            if not isinstance(cb_tag, str):
+                cb_tag = getattr(getattr(cb, '__self__', None), 'tag', None)  # a bound method
             if not isinstance(cb_tag, str):
                 cb_tag = '?' + getattr(cb, '__name__', type(cb).__name__)
         throw = state.solver_throw
